@@ -50,4 +50,12 @@ CHECKS.update({
         "technique": "symbolic execution (CrossHair + z3) of the real fixture + value classes over symbolic values and flag bits; biconditional oracle per path",
     },
 })
+CHECKS.update({
+    "C12": {
+        "engine": "strsym",
+        "text": "Engine B reads _str_literal_helper / triple_quote (and the routing guard of value_to_token) from /repo's current source, rewrites three AST node kinds into runtime calls and executes the repo's own function bodies on vectors of z3 integer code points; every branch on a symbolic boolean forks, every path ends in a z3 obligation decode(triple_quote(s)) == s (no assertion, delimiter never unescaped) that must be unsat for all code points, where decode is an executable model of CPython's literal evaluation validated against ast.literal_eval on each run.",
+        "note": "Bounds: strings of <=3 segments (thorough 4) where a segment is an arbitrary code point (0..0x10FFFF) or one of 10 dictionary entries, plus one more segment with <=1 arbitrary code point. str.isprintable exact up to U+00A0, free above (sound over-approximation). Single-line strings (CPython repr), bytes and the formatter's treatment of literals are environment: covered by a labelled contract corpus of 50 values through the real pipeline, not by the solver. Two defects found here were repaired (fix: 77ee014, 95a8023).",
+        "technique": "AST-driven bounded SMT encoding (z3, LIA over code points) of the repo's string-literal kernel with path forking by re-execution; translator validation on concrete corpus",
+    },
+})
 NOT_APPLICABLE = {}
